@@ -443,7 +443,7 @@ pub fn write_to<W: Write>(kind: Kind, model: &Model, w: W) -> io::Result<()> {
 /// Does the delivered file come from the harness text (reader kinds fed hand-made text, incl.
 /// CRLF and odd line widths) rather than from the noodles writer?
 fn made_from_text(kind: Kind) -> bool {
-    matches!(kind, Kind::Fasta | Kind::Fastq | Kind::Gff | Kind::Gtf | Kind::Bed | Kind::Vcf)
+    matches!(kind, Kind::Fasta | Kind::Fastq | Kind::Gff | Kind::Gtf | Kind::Bed | Kind::Vcf | Kind::Sam)
 }
 
 pub fn make(spec: &FileSpec) -> io::Result<Made> {
@@ -472,7 +472,9 @@ fn make_inner(spec: &FileSpec) -> io::Result<Made> {
             Model::Fasta(m, _) => m.text.clone(),
             Model::Fastq(m) => m.text.clone(),
             Model::Lines(m) => m.text.clone(),
-            Model::Variant { model, .. } => model.text().into_bytes(),
+            // every third text file uses CRLF line terminators (decided by the spec's seed)
+            Model::Variant { model, .. } => if spec.seed % 3 == 0 { model.text_crlf() } else { model.text() }.into_bytes(),
+            Model::Align { model, .. } => if spec.seed % 3 == 0 { model.text_crlf() } else { model.text() }.into_bytes(),
             _ => unreachable!(),
         }
     } else {
